@@ -326,12 +326,15 @@ def exec_while(eng: Engine, fn: FnCtx, s: ast.While, st: State) -> Iterator[Outc
 
 
 def cut_loop(eng: Engine, fn: FnCtx, lineno: int, spec: Loop, st: State, body: list[ast.stmt], orelse: list[ast.stmt],
-	cond: Callable[[Ev], Any], pre_body: Callable[[Ev], None] | None, post_body: Callable[[Ev], None] | None, extra_mods: set[str] | None = None) -> Iterator[Outcome]:
+	cond: Callable[[Ev], Any], pre_body: Callable[[Ev], None] | None, post_body: Callable[[Ev], None] | None, extra_mods: set[str] | None = None, aliases: dict[str, str] | None = None) -> Iterator[Outcome]:
 	for c, t in clause_terms(eng, fn, st, spec.invariant):
 		eng.oblige(fn, 'inv-init', st, t, c, lineno)
 	mods = assigned_vars(body, lambda call: mutating_call(fn, call)) | (extra_mods or set())
 	st2 = st.copy()
 	havoc(eng, st2, mods)
+	for al, srcname in (aliases or {}).items():
+		if srcname in st2.env:
+			st2.env[al] = st2.env[srcname]
 	for c, t in clause_terms(eng, fn, st2, spec.invariant):
 		st2.assume(t)
 	run_hints(eng, fn, st2, spec.hints_head)
@@ -427,24 +430,28 @@ def exec_for(eng: Engine, fn: FnCtx, s: ast.For, st: State) -> Iterator[Outcome]
 				assign_target(ev, s.target, ev.st.env[idx])
 				ev.st.env['_i'] = ev.st.env[idx]
 		else:
-			seq: Val = payload if mode == 'seq' else payload_to_seq(payload)
+			seq: Val = payload if mode in ('seq', 'enum') else payload_to_seq(payload)
 			st1.env[idx] = Val(INT, z3.IntVal(0))
 			st1.env['_i'] = st1.env[idx]
 			st1.env[f'_seq{ordk}'] = seq
 			st1.env['_seq'] = seq
 			def cond(ev: Ev, seq=seq) -> Any:  # type: ignore[misc]
 				return ev.st.env[idx].term < z3.Length(seq.term)
-			def pre(ev: Ev, seq=seq) -> None:  # type: ignore[misc]
+			def pre(ev: Ev, seq=seq, mode=mode) -> None:  # type: ignore[misc]
 				i = ev.st.env[idx].term
 				assert isinstance(seq.ty, TList)
-				assign_target(ev, s.target, Val(seq.ty.elem, seq.term[i]))
+				if mode == 'enum':
+					tt = TTuple((INT, seq.ty.elem))
+					assign_target(ev, s.target, Val(tt, tt.mk(i, seq.term[i])))
+				else:
+					assign_target(ev, s.target, Val(seq.ty.elem, seq.term[i]))
 				ev.st.env['_i'] = ev.st.env[idx]
 		def post(ev: Ev) -> None:
 			ev.st.env[idx] = Val(INT, ev.st.env[idx].term + 1)
 			ev.st.env['_i'] = ev.st.env[idx]
 		tnames = {t.id for t in ast.walk(s.target) if isinstance(t, ast.Name)}
 		# make the loop variable exist before the havoc so that it is havocked with a type
-		yield from cut_loop(eng, fn, s.lineno, spec, st1, s.body, s.orelse, cond, pre, post, extra_mods={idx, '_i'} | tnames)
+		yield from cut_loop(eng, fn, s.lineno, spec, st1, s.body, s.orelse, cond, pre, post, extra_mods={idx} | tnames, aliases={'_i': idx})
 
 
 def payload_to_seq(items: list[tuple[Any, Val]]) -> Val:
@@ -465,6 +472,10 @@ def iter_setup(ev: Ev, it: ast.expr) -> tuple[str, Any]:
 		if len(args) == 2:
 			return 'range', (args[0].term, args[1].term)
 		raise EngineError('range with step')
+	if isinstance(it, ast.Call) and isinstance(it.func, ast.Name) and it.func.id == 'enumerate' and len(it.args) == 1:
+		inner = ev.iter_values(it.args[0])
+		if inner.items is None:
+			return 'enum', inner
 	v = ev.iter_values(it)
 	if v.items is not None:
 		return 'items', v.items
